@@ -253,6 +253,47 @@ theorem findAcc_none {k : Kernel} {tys : List Nat} : ∀ {l : List Acc},
     rw [matchSupported_none (h x (by simp))]
     exact findAcc_none fun a ha => h a (by simp [ha])
 
+/-! ## mixed bodies -/
+
+theorem evalMOps_arith (acc : Option Val) : ∀ (ops : List BOp) (env : List Val),
+    evalMOps acc (ops.map MOp.arith) env = evalOps ops env
+  | [], _ => rfl
+  | op :: rest, env => by
+    simp only [List.map_cons, evalMOps, evalOps, stepMOp]
+    cases stepOp env op <;> simp [evalMOps_arith acc rest]
+
+theorem evalMBody_ofBody (b : Body) (ins : List Val) : evalMBody b.toMBody ins = evalBody b ins := by
+  simp [evalMBody, evalBody, Body.toMBody, evalMOps_arith]
+
+theorem evalMBody_ofKBody (kb : KBody) (ins : List Val) : evalMBody kb.toMBody ins = evalKBody kb ins := by
+  simp only [evalMBody, evalKBody, KBody.toMBody, evalMOps, stepMOp, stepKernel]
+  split
+  · cases lookupAll ins kb.operands with
+    | none => simp
+    | some vs =>
+      cases ins.getLast? with
+      | none => simp
+      | some acc =>
+        simp only [Option.bind_some]
+        split
+        · cases kernelSpec kb.kernel (vs ++ [acc]) <;> simp
+        · simp
+  · rfl
+
+theorem lowerLinalgBody_some {b : MBody} {r : Body} (h : lowerLinalgBody b = some r) :
+    ∃ kb : KBody, b = kb.toMBody ∧ kb.kernel.isParsable = true ∧ r = expand kb := by
+  obtain ⟨args, ops, ret⟩ := b
+  unfold lowerLinalgBody at h
+  split at h
+  · next k operands opTypes resWidth hops =>
+    split at h
+    · next hp =>
+      simp only [Option.some.injEq] at h
+      simp only at hops
+      exact ⟨⟨args, k, operands, opTypes, resWidth, ret⟩, by simp [KBody.toMBody, hops], hp, by simp [expand, h]⟩
+    · cases h
+  · cases h
+
 /-! ## rescale -/
 
 theorem trunc_sshiftRight_signExtend (T : BitVec 32) :
